@@ -6,6 +6,11 @@ const (
 	min = time.Minute
 )
 
+func prog(name, pkg, run string, quick, thorough, qShards, tShards int) Job {
+	return Job{Name: name, Kind: "harness", Pkg: pkg, Run: run, NeedLlgo: true,
+		Checks: [2]int{quick, thorough}, Shards: [2]int{qShards, tShards}, Timeout: [2]time.Duration{20 * min, 90 * min}}
+}
+
 func har(name, pkg, run string, needLlgo bool, quick, thorough, qShards, tShards int) Job {
 	return Job{Name: name, Kind: "harness", Pkg: pkg, Run: run, NeedLlgo: needLlgo, Prepare: "^TestPrepare$",
 		Checks: [2]int{quick, thorough}, Shards: [2]int{qShards, tShards}, Timeout: [2]time.Duration{15 * min, 60 * min}}
@@ -162,6 +167,17 @@ var props = map[string]Prop{
 		Jobs: []Job{
 			{Name: "sema", Kind: "lift", Pkg: "./internal/lib/runtime", Run: "TestVerifC11", Lift: []LiftFile{{Src: "runtime/internal/lib/runtime/sema_llgo.go", Dst: "internal/lib/runtime/sema_llgo.go", DropLinkname: true}},
 				Checks: [2]int{60000, 2000000}, Shards: [2]int{8, 16}, Timeout: [2]time.Duration{10 * min, 60 * min}},
+		},
+	},
+	"C04": {
+		ID: "C04", Level: "exploration",
+		Rule: "rapid generates import-free programs (a third of them import runtime for Goexit) of 8-30 independent units; a unit is a call tree of 1-5 functions with a named result whose bodies are drawn from a statement language: trace, defer with arguments evaluated at the defer statement, deferred closures reading locals later and writing the named result, direct recoverers, re-panicking deferred functions, deferred calls of functions that have defers of their own, placed unconditionally, under if, inside for loops (1-4 trips) and inside range-over-func bodies (with early break); panics with int/string/error/custom values, run-time faults (index, nil map, nil pointer, divide), early returns, runtime.Goexit, calls down the chain; units run on the main goroutine or in a goroutine. Each program is built by gc and by llgo at O0 and O2 (O0 and Oz when it imports runtime) and compared unit by unit: ordered trace, recovered values, final results, process outcome. Non-trivial unit: >= 2 features and control leaves by panic, fault, Goexit or early return; distinct by hash of (unit source, reference trace).",
+		Assumptions: []string{
+			"gc (go1.24) output of the same program is the reference; programs are deterministic by construction",
+			"recover called one frame below the deferred function is generated only in dedicated units (listed finding)",
+		},
+		Jobs: []Job{
+			prog("programs", "./harness/c04", "TestC04Programs", 3, 60, 8, 16),
 		},
 	},
 }
